@@ -220,6 +220,69 @@ Definition decode_mspec (x : sx) : option MavenRange.mspec :=
 
 (* ---- dispatcher *)
 
+(* ---- Maven with arbitrary version strings *)
+Definition dec_ob (x : sx) : option (option bytes) :=
+  match x with SL [] => Some None | SL [SB b] => Some (Some b) | _ => None end.
+Definition dec_restr_s (x : sx) : option MavenRange.mrestr_s :=
+  match x with
+  | SL [SI li; lo; SI hi_i; hi] =>
+      match dec_ob lo, dec_ob hi with
+      | Some l, Some h => Some {| MavenRange.slo := l; MavenRange.slo_incl := negb (li =? 0);
+                                  MavenRange.shi := h; MavenRange.shi_incl := negb (hi_i =? 0) |}
+      | _, _ => None
+      end
+  | _ => None
+  end.
+Definition decode_mspec_s (m : sx) : option MavenRange.mspec_s :=
+  match m with
+  | SL [SI 0; SB v] => Some (MavenRange.MSoftS v)
+  | SL [SI 1; SL rs] => match decode_list dec_restr_s rs with Some l => Some (MavenRange.MRangesS l) | None => None end
+  | _ => None
+  end.
+Definition dec_bytes (x : sx) : option bytes := match x with SB b => Some b | _ => None end.
+
+Definition sx_opt {A} (f : A -> sx) (o : option A) : sx := match o with Some x => SL [SI 1; f x] | None => SL [SI 0] end.
+Definition sx_zs (l : list Z) : sx := SL (map SI l).
+
+Definition kind_is (kind : bytes) (name : bytes) : bool := bytes_eqb kind name.
+
+(* further kinds: the string-based Maven specification, witnesses of non-emptiness, and the
+   per-comparator verdicts of the crate (matches_impl, pre_is_compatible) *)
+Definition run_more (kind : bytes) (a : sx) : option sx :=
+  if kind_is kind [115;112;101;99;95;109;97;118;101;110;113]%N (* spec_mavenq *) then
+    Some (match a with
+          | SL [m; SL vs] =>
+              match decode_mspec_s m, decode_list dec_bytes vs with
+              | Some m', Some vs' => sx_bools (map (MavenRange.contains_s m') vs')
+              | _, _ => badcase
+              end
+          | _ => badcase end)
+  else if kind_is kind [119;105;116;95;110;112;109]%N (* wit_npm *) then
+    Some (match decode_nrange a with Some r => sx_opt sx_sv (witness r) | None => badcase end)
+  else if kind_is kind [119;105;116;95;99;97;114;103;111]%N (* wit_cargo *) then
+    Some (match a with
+          | SL cs => match decode_list decode_comparator cs with Some r => sx_opt sx_sv (req_witness r) | None => badcase end
+          | _ => badcase end)
+  else if kind_is kind [119;105;116;95;112;121;112;105]%N (* wit_pypi *) then
+    Some (match a with
+          | SL ss => match decode_list decode_spec ss with Some l => sx_opt sx_zs (Pep440Specifier.spec_witness l) | None => badcase end
+          | _ => badcase end)
+  else if kind_is kind [119;105;116;95;109;97;118;101;110]%N (* wit_maven *) then
+    Some (match decode_mspec a with Some m => sx_opt sx_zs (MavenRange.mv_witness m) | None => badcase end)
+  else if kind_is kind [119;105;116;95;109;97;118;101;110;113]%N (* wit_mavenq *) then
+    Some (match decode_mspec_s a with Some m => sx_opt SB (MavenRange.mv_witness_s m) | None => badcase end)
+  else if kind_is kind [99;97;114;103;111;95;100;101;116;97;105;108]%N (* cargo_detail *) then
+    Some (match a with
+          | SL [SL cs; SL vs] =>
+              match decode_list decode_comparator cs, decode_list decode_sv vs with
+              | Some cs', Some vs' =>
+                  SL (map (fun v => SL (map (fun c => SL [sx_bool (matches_impl c v); sx_bool (pre_is_compatible c v)]) cs')) vs')
+              | _, _ => badcase
+              end
+          | _ => badcase end)
+  else None.
+
+
 Definition run_RangeSpec (kind : bytes) (a : sx) : option sx :=
   if bytes_eqb kind [115;112;101;99;95;110;112;109]%N (* spec_npm *) then
     Some (match a with
@@ -258,4 +321,4 @@ Definition run_RangeSpec (kind : bytes) (a : sx) : option sx :=
               | _, _ => badcase
               end
           | _ => badcase end)
-  else None.
+  else run_more kind a.
